@@ -348,6 +348,13 @@ def check(pid, tier):
     cross = dict(ok=True, n=0, bad=[])
 
     with Lock():
+        # 0. source-to-Coq translation (C04: the unsafe copy sites are regenerated from /repo's current source)
+        if cfg.get("translator"):
+            rc_t, out_t = sh([sys.executable, os.path.join(ROOT, "tools", cfg["translator"])])
+            log("[%s] %s" % (pid, out_t.strip()))
+            if rc_t != 0:
+                violations.append(("tie", "source translator %s could not read /repo's source: %s" % (cfg["translator"], out_t.strip()[-300:]),
+                                   dict(translator=cfg["translator"], log=out_t[-1500:])))
         # 1. proof step
         pr = proof_step(pid, thorough)
         log("[%s] proof step: ok=%s obligations=%d discharged=%d theorems=%d closed=%d axioms=%s (%.1fs)" % (
